@@ -2611,6 +2611,16 @@ func NegativeInf() Value {
 	return _negativeInf
 }
 
+// isScriptException returns true if the recovered panic value is an exception that script code can catch
+// (as opposed to an interrupt, a stack overflow or a Go panic that did not originate in the runtime).
+func isScriptException(x interface{}) bool {
+	switch x.(type) {
+	case Value, *Exception, typeError, referenceError, rangeError, syntaxError:
+		return true
+	}
+	return false
+}
+
 func tryFunc(f func()) (ret interface{}) {
 	defer func() {
 		ret = recover()
@@ -2767,12 +2777,13 @@ func (ir *iteratorRecord) iterate(step func(Value)) {
 			step(value)
 		})
 		if ret != nil {
-			if asUncatchableException(ret) == nil {
+			if isScriptException(ret) {
 				ret1 := tryFunc(func() {
 					ir.returnIter()
 				})
-				if asUncatchableException(ret1) != nil {
-					// an interrupt (or a stack overflow) while closing the iterator must not be swallowed
+				if ret1 != nil && !isScriptException(ret1) {
+					// an interrupt, a stack overflow or a Go panic that did not originate in the runtime
+					// while closing the iterator must not be swallowed
 					panic(ret1)
 				}
 			}
